@@ -95,8 +95,10 @@ def main():
     cov.update({k: v for k, v in comp.items() if k.startswith("posterior_")})
     limit = 24 if ck.tier == "quick" else None
     jobs = sysrun.product_jobs(FACTORS, {"n_particles": 8}, ck.seed + 12, limit=limit, flags=FLAGS)
-    for j in jobs:
+    for k_, j in enumerate(jobs):
         j["n_total"] = j["conf"].pop("_nt", 32)
+        if k_ % 3 == 0:
+            j["manual_iters"] = 2   # posterior() after the caller kept iterating with sample()
     if ck.tier == "thorough":
         more = sysrun.product_jobs(FACTORS, {"n_particles": 12, "n_dim": 3, "target": "bimodal"}, ck.seed + 120, limit=96, flags=FLAGS)
         for j in more:
